@@ -1,5 +1,5 @@
 INIT Init
 NEXT Next
 CONSTANTS
-  MaxSize = 4
+  MaxSize = 3
   PassSize = 3
